@@ -39,8 +39,11 @@ def main():
         ('and: va<vb arm takes the wrong cofactor', 'and', 2, dict(obligations=('sem',), witness=False, mutate=('and', 'clone(copy _20)', 'clone(copy _16)'))),
         ('xor (callees by contract): swapped not', 'xor', 2, dict(obligations=('sem',), witness=False, summaries=('and', 'or', 'not'), mutate=('xor', 'BDDEnv::<S>::or(', 'BDDEnv::<S>::and('))),
     ]
+    # two connectives applied to the same operands in one environment (state threaded through the real code)
+    pairs = [(a, b) for a in ('eq', 'xor', 'nor', 'nand', 'ite', 'implies', 'and') for b in ('eq', 'xor', 'nor', 'nand', 'and', 'or') if a != b]
+    xj = [('history %s ; %s k=2' % (a, b), unit_pair, (a, b, 2, {})) for a, b in pairs]
     rep = run_property(
-        PID, units, OPS, selftests,
+        PID, units, OPS, selftests, extra_jobs=xj,
         bounds={'variables_k': {'full recursion': kfull, 'induction step': kind, 'derived connectives (callees by contract)': kfull + 1},
                 'ids': 'k symbolic 64-bit atoms a0<a1<.. (any spacing; order-only abstraction with bit-vector fallback)',
                 'operands': 'every Boolean function of k variables in every argument position (symbolic truth tables), plus aliased operands',
